@@ -127,6 +127,6 @@ SRC_FIELDS = dict(name='_name', x='_x', y='_y', valid='_valid', flux='_flux', er
 from .source import well_formed
 _make(SOURCE, _source, SRC_FIELDS, '__getstate__', '__setstate__', ('C10', 'C20'), invariant=well_formed)
 _make(SOURCE, _source, SRC_FIELDS, 'to_dict', 'from_dict', ('C20',), invariant=well_formed)
-_make(FITINFO, _fitinfo, dict(source='source', av='av', sc='sc', chi2='chi2', model_id='model_id', model_name='model_name', model_fluxes='model_fluxes'),
-      '__getstate__', '__setstate__', ('C10',))
+# FitInfo: its round trip is verified where the code performs it -- FitInfoFile.__iter__ (in-memory results are yielded as
+# __setstate__(__getstate__(x)) copies: contracts/fitinfo_file.py, clause items_equal_the_results) -- with both methods inlined.
 _make(EXT, _extinction, dict(wav='_wav', chi='_chi'), '__getstate__', '__setstate__', ('C14', 'C10', 'C17'), variants=('micron/cgs', 'AA/si'))
